@@ -51,6 +51,28 @@ theorem unfuse_fuse [Zero R] {T F : Tensor R} (h : WF ms T) (groups : List (List
   rw [find?_map_keys _ _ _ hmem]
   exact fuse_element_preserved h groups hpart kb hkb idx hidx
 
+theorem get_val_from_block [Zero R] (T : Tensor R) (k : Key) (idx : List Nat)
+    (h : (match T.get? k with | some b => b.val idx | none => 0) ≠ 0) :
+    ∃ kb ∈ T.blocks, ∃ idx', (match T.get? k with | some b => b.val idx | none => (0 : R)) = kb.2.val idx' := by
+  unfold Tensor.get? at h ⊢
+  cases hf : T.blocks.find? (fun kb => kb.1 == k) with
+  | none => rw [hf] at h; exact absurd rfl h
+  | some kb => exact ⟨kb, List.mem_of_find?_eq_some hf, idx, rfl⟩
+
+/-- **fusion creates nothing**: every non-zero element of the fused tensor is an element of a stored block of the original tensor
+(positions of a fused sector that no stored block maps to — sectors missing in the operand, the padding of `hard` fusion — hold zeros) -/
+theorem fused_nonzero_from_block [Zero R] (T : Tensor R) (groups : List (List Nat)) (K : Key) (J : List Nat)
+    (hne : fusedVal T groups K J ≠ 0) : ∃ kb ∈ T.blocks, ∃ idx, fusedVal T groups K J = kb.2.val idx := by
+  unfold fusedVal at hne ⊢
+  simp only at hne ⊢
+  split
+  · rename_i hall
+    rw [if_pos hall] at hne
+    exact get_val_from_block T _ _ hne
+  · rename_i hall
+    rw [if_neg hall] at hne
+    exact absurd rfl hne
+
 end YModel
 
 namespace YModel
